@@ -10,6 +10,32 @@ import os, json, vlib, gen, hist
 from props import imgprop, C10
 PID = "C11"
 
+def dircycle_big(exe, rng, i):
+    """a volume of 30000-70000 blocks with a directory that reappears further down one of its own hash chains: the
+    recursive listing must give up (budget / 512 levels), not recurse until the stack is exhausted"""
+    import struct, fsck
+    hx = gen.hx
+    n = rng.choice([30000, 65536, 70000]); dt = rng.choice([0, 1, 3])
+    pre = [f"newdev 0 {n} 1 1", "clock 2021 3 3 3 3 3", f"mkhdf 0 {hx(b'deep')} {dt}", "mount 0 0 0",
+           f"mkdir 0 0 {hx(b'D')}", f"chdir 0 0 {hx(b'D')}", f"mkdir 0 0 {hx(b'F')}", f"open 1 0 0 {hx(b'x')} 2", "write 1 100 1", "close 1", "unmount 0 0"]
+    p = os.path.join(vlib.scratch(), f"c11deep_{i}.img")
+    vlib.run_c(exe, pre + [f"dumpimg 0 {p}", "closedev 0"], timeout=120)
+    with open(p, "rb") as fh: img = fh.read()
+    os.unlink(p)
+    f = fsck.fsck_image(img, 0, n, want_data=False)
+    D = next((k for k in f.root.kids.values() if k.name == b"D"), None) if f.root else None
+    F = next((k for k in D.kids.values() if k.name == b"F"), None) if D else None
+    if not F: return None
+    # F.nextSameHash := D  (F is inside D: D reappears as a chain member of its own child list), checksum re-fixed
+    blk = bytearray(img[F.block * 512:(F.block + 1) * 512])
+    struct.pack_into(">I", blk, 0x1f0, D.block)
+    struct.pack_into(">I", blk, 20, 0)
+    s = sum(struct.unpack(">128I", blk)) & 0xffffffff
+    struct.pack_into(">I", blk, 20, (-s) & 0xffffffff)
+    off = F.block * 512
+    muts = [f"pokeimg 0 {off + 0x1f0} {blk[0x1f0:0x1f4].hex()}", f"pokeimg 0 {off + 20} {blk[20:24].hex()}"]
+    return pre + ["closedev 0"] + muts + ["opendev 0 1", "mount 0 0 1", "list 0 0 1", "list 0 0 0", "unmount 0 0", "closedev 0"]
+
 _BIG = {}
 def bmext_hostile(exe, rng, i):
     """a library-made hardfile of more than 101602 blocks (26+ bitmap pages, one bitmap-extension block) whose extension
@@ -60,6 +86,11 @@ def run(res):
         cb, paths, tie, san, crash, fault = hist.run_plain(exe, ops, timeout=120)
         return dict(ops=ops, cb=cb, tie=tie, san=san, crash=crash, fault=fault)
     rdb.append(big(0)); rdb.append(big(1)); rdb.append(big(2))        # (fills the cache of extension-block positions)
+    for i in range(3 if res.tier == "quick" else 30):
+        o = dircycle_big(exe, vlib.rng_for(res.seed, f"C11deep/{i}"), i)
+        if o:
+            cb, paths, tie, san, crash, fault = hist.run_plain(exe, [f"readlimit {4 * 70000}"] + o, timeout=180)
+            rdb.append(dict(ops=o, cb=cb, tie=tie, san=san, crash=crash, fault=fault))
     with ThreadPoolExecutor(4) as ex: rdb += list(ex.map(big, range(3, 7 if res.tier == "quick" else 60)))
     bad, ties = [], []
     for r in results:
@@ -75,6 +106,8 @@ def run(res):
         aborted = any(b and b[0].startswith("= ABORT") for b in r["cb"])
         if aborted or (r["crash"] and "-9" in r["crash"]): bad.append((r, f"mounting / reading a corrupted partitioned disk does not end: {[o for o in r['ops'] if o.startswith('pokeimg')]}"))
         elif r["fault"] and "outOfFuel" in r["fault"]: bad.append((r, f"the model ran out of fuel: {r['fault']}"))
+        elif (r["san"] and ("stack-overflow" in r["san"] or "SEGV" in r["san"])) or (r["crash"] and "exit -11" in r["crash"]):
+            bad.append((r, f"recursion on a hostile image is not bounded (stack exhausted): {r['san'] or r['crash']} ({[o for o in r['ops'] if o.startswith('pokeimg')]})"))
         elif r["tie"] and not r["san"] and not r["crash"]: ties.append(dict(ops=r["ops"], tie=r["tie"][:3], fault=None))
     res.cov["samples"] = [str(results[0]["muts"])]
     res.cov["traces_validated_against_impl"] = len(results) + len(rdb) - len(ties)
